@@ -82,6 +82,7 @@ def main(have):
     sd.os = FakeOS(w)
     for dev, binding, clsname in (("/dev/sg0", "sgio", "SCSIDevice"), ("/dev/bsg/0:0:0:0", "sgio", "SCSIDevice"), ("/dev/disk/by-id/wwn-0x5000", "sgio", "SCSIDevice"),
                                   ("/dev/", "sgio", "SCSIDevice"), ("iscsi://127.0.0.1/iqn.t/0", "iscsi", "ISCSIDevice"), ("iscsi://", "iscsi", "ISCSIDevice"),
+                                  ("iscsi://Host.Example:3260/iqn.2001-04.COM.Example:Target-A/1", "iscsi", "ISCSIDevice"), ("/dev/disk/by-label/Data Disk", "sgio", "SCSIDevice"),
                                   ("/tmp/file", None, None), ("tcp://x", None, None), ("", None, None), ("/dev", None, None), ("dev/sg0", None, None),
                                   ("ISCSI://x", None, None), (" /dev/sg0", None, None)):
         del w.trace[:]
@@ -95,6 +96,12 @@ def main(have):
         touched = [t[0] for t in w.trace if t[0] in ("open", "iscsi.Context", "iscsi.connect", "iscsi.URL")]
         if binding is not None and binding in have:
             ok = res == ("return", clsname) and len(touched) >= 1
+            # the path / url reaches the operating system / the binding exactly as requested
+            for t in w.trace:
+                if t[0] == "open" and t[1] != dev:
+                    ok = False
+                if t[0] == "iscsi.URL" and t[3] != dev:
+                    ok = False
         else:
             ok = res == ("raise", "NotImplementedError") and not touched
         out.append(["init_device:%s" % dev, ok, "%s %s" % (res, touched)])
